@@ -427,6 +427,14 @@ def make_cond(alts):
     k0 = vkey(alts[0][1])
     if all(vkey(v) == k0 for _, v in alts):
         return alts[0][1]
+    # polynomials: factor the part common to every alternative out of the conditional, so that
+    # `acc += t` under a branch becomes acc + cond{g -> t; True -> 0} (linear, not exponential, size)
+    if all(isinstance(v, Poly) for _, v in alts):
+        first = alts[0][1].terms
+        common = {m: c for m, c in first.items() if all(v.terms.get(m) == c for _, v in alts[1:])}
+        if common:
+            rest = [(g, Poly({m: c for m, c in v.terms.items() if m not in common})) for g, v in alts]
+            return Poly(common) + as_term(make_cond(rest))
     # containers: merge component-wise when shapes agree
     if all(isinstance(v, ATuple) for _, v in alts) and len({len(v.items) for _, v in alts}) == 1:
         n = len(alts[0][1].items)
@@ -480,7 +488,7 @@ class Event:
 class Interp:
     """Abstract interpreter of one function (with bounded inlining of repository helpers)."""
 
-    def __init__(self, prog, inline=None, no_inline=(), max_depth=5, opaque_self_methods=(), inline_all_repo=False):
+    def __init__(self, prog, inline=None, no_inline=(), max_depth=5, opaque_self_methods=(), inline_all_repo=False, copy_is_identity=True):
         self.prog = prog
         self.inline = set(inline or ())  # extra qualname suffixes to inline
         self.no_inline = set(no_inline)
@@ -489,6 +497,7 @@ class Interp:
         self.stack = []
         self.inline_all_repo = inline_all_repo
         self.opaque_self_methods = set(opaque_self_methods)
+        self.copy_is_identity = copy_is_identity
         self.notes = []
 
     # ----------------------------------------------------------- entry points
@@ -1181,6 +1190,9 @@ class Frame:
                 is_static = "staticmethod" in m.decorators
                 a2 = args if is_static else [recv] + args
                 return self.call_function(m, a2, kwargs, st, node, self_cls=ci)
+        if name == "copy" and not args and not kwargs and self.I.copy_is_identity:
+            # value semantics: a copy equals its original (aliasing is decided by the AST rules, not here)
+            return recv
         return self.opaque_mcall(name, recv, args, kwargs, st, node)
 
     def opaque_call(self, name, args, kwargs, st, node):
